@@ -281,7 +281,7 @@ Section WithGen2.
   Proof.
     intros Hn Ht Ho. cbv zeta. unfold h_001, h_001_with.
     destruct (welcome_pre_ok l nick Ht) as (uh & ->).
-    unfold do_Me, others_of, tracking, me_nick_of in *. unfold nn in *.
+    unfold me_nick_of, others_of, tracking, do_Me, nn in *.
     destruct (c_st s) as [t|] eqn:Est.
     - cbn [tk_Me c_st cfg_me].
       set (t1 := match uh with Some (_, i, h) => fst (tk_NickInfo t (nk_nick (tr_me t)) i h (nk_name (tr_me t))) | None => t end).
@@ -311,7 +311,7 @@ Section WithGen2.
     assert (Hal : argslen l 1 = true).
     { unfold argslen. rewrite Ha. unfold llen. cbn [length]. destruct (Z.of_nat (S (S (length rest))) <=? 1) eqn:E; [lia|reflexivity]. }
     rewrite Ha, !elem_at_1, Hal. cbn [negb].
-    unfold do_Me, others_of, tracking, me_nick_of in *. unfold nn in *.
+    unfold me_nick_of, others_of, tracking, do_Me, nn in *.
     destruct (c_st s) as [t|] eqn:Est.
     - cbn [tk_Me c_st cfg_me snd option_map opt_beq'].
       rewrite (beq_sym r). destruct (beq (nk_nick (tr_me t)) r) eqn:E; cbn [andb].
@@ -319,8 +319,8 @@ Section WithGen2.
         destruct (tk_tracked t (new_nick r)); cbn; repeat split; try reflexivity; discriminate.
       + cbn. repeat split; try reflexivity; discriminate.
     - destruct (cfg_me s) as [c|] eqn:Ec; [|contradiction]. cbn [c_st cfg_me snd option_map opt_beq'].
-      rewrite Ec. cbn [option_map opt_beq']. rewrite (beq_sym r).
-      destruct (beq (nk_nick c) r) eqn:E; cbn; rewrite ?Ec; repeat split; try reflexivity; try discriminate; congruence.
+      rewrite ?Est, ?Ec. cbn [option_map opt_beq']. rewrite (beq_sym r).
+      destruct (beq (nk_nick c) r) eqn:E; cbn; rewrite ?Est, ?Ec; cbn; repeat split; try reflexivity; try discriminate; congruence.
   Qed.
 
   (* a 433 with fewer than two arguments: the handler panics at line.Args[1], before anything
@@ -344,7 +344,7 @@ Section WithGen2.
   Proof.
     intros Hn Hc Hk Ha Hm Hx Ho. cbv zeta. unfold NickHandlers.handle, handle_with. rewrite Hc. cbn [beq c_NICK c_001 c_433 N.eqb Pos.eqb andb].
     change (beq c_NICK c_NICK) with true. cbv iota.
-    unfold others_of, tracking, me_nick_of, do_Me, nn in *.
+    unfold me_nick_of, others_of, tracking, do_Me, nn in *.
     destruct (c_st s) as [t|] eqn:Est.
     - unfold seq_h, h_NICK, h_STNICK. rewrite Est. cbn [ho_st done ho_out app]. rewrite Ha, elem_at_0, Est, Hk.
       cbn [snd tk_Me option_map] in Hm. injection Hm as Hm. rewrite <- Hm, tk_ReNick_me.
@@ -364,7 +364,7 @@ Section WithGen2.
   Proof.
     intros Hn Hc Hk Ha Hm Hac Hbc Ho. cbv zeta. unfold NickHandlers.handle, handle_with. rewrite Hc.
     change (beq c_NICK c_001) with false. change (beq c_NICK c_433) with false. change (beq c_NICK c_NICK) with true. cbv iota.
-    unfold others_of, tracking, me_nick_of, do_Me, nn in *.
+    unfold me_nick_of, others_of, tracking, do_Me, nn in *.
     destruct (c_st s) as [t|] eqn:Est.
     - unfold seq_h, h_NICK, h_STNICK. rewrite Est. cbn [ho_st done ho_out app]. rewrite Ha, elem_at_0, Est, Hk.
       cbn [snd tk_Me option_map] in Hm. injection Hm as Hm.
@@ -392,3 +392,643 @@ Section WithGen2.
     destruct (elem_at (l_args l) 0); cbn; rewrite ?Hs; cbn; split; reflexivity.
   Qed.
 End WithGen2.
+
+(* ================= the server's lines ================= *)
+Lemma nick_ok_parts n : nick_ok n = true -> name_ok n = true /\ middle_ok n = true.
+Proof. unfold nick_ok. intros H. now apply andb_true_iff in H. Qed.
+
+Lemma word_byte_trailing c : word_byte c = true -> trailing_byte c = true.
+Proof.
+  unfold word_byte, trailing_byte. intros H. apply andb_true_iff in H as [H1 H2]. rewrite H2. cbn [andb].
+  destruct (N.eqb c b_cr) eqn:E1; [apply N.eqb_eq in E1; subst; discriminate|].
+  destruct (N.eqb c b_lf) eqn:E2; [apply N.eqb_eq in E2; subst; discriminate|]. reflexivity.
+Qed.
+
+Lemma nick_ok_trailing n : nick_ok n = true -> forallb trailing_byte n = true.
+Proof.
+  intros H. apply nick_ok_parts in H as [_ H]. unfold middle_ok, word_ok in H.
+  apply andb_true_iff in H as [H _]. apply andb_true_iff in H as [_ H].
+  apply forallb_forall. intros c Hc. apply word_byte_trailing. exact (forallb_In _ _ _ H Hc).
+Qed.
+
+Lemma nick_ok_clean n : nick_ok n = true -> clean n.
+Proof.
+  intros H. apply nick_ok_trailing in H. apply Forall_forall. intros c Hc.
+  pose proof (forallb_In _ _ _ H Hc) as T. unfold trailing_byte in T.
+  apply andb_true_iff in T as [T T3]. apply andb_true_iff in T as [_ T2].
+  unfold is_nl. apply negb_true_iff in T2, T3. unfold b_cr, b_lf in *. now rewrite T2, T3.
+Qed.
+
+Lemma middle_ok_star : middle_ok s_star = true. Proof. reflexivity. Qed.
+
+Lemma wf_coll cur x : middle_ok cur = true -> middle_ok x = true -> wf_msg (coll_msg cur x) = true.
+Proof. intros H1 H2. unfold wf_msg, coll_msg, smsg. cbn. now rewrite H1, H2. Qed.
+
+Lemma wf_ignore cur x : middle_ok cur = true -> middle_ok x = true -> wf_msg (ignore_msg cur x) = true.
+Proof. intros H1 H2. unfold wf_msg, ignore_msg, smsg. cbn. now rewrite H1, H2. Qed.
+
+Lemma wf_welcome n : nick_ok n = true -> wf_msg (welcome_msg n) = true.
+Proof.
+  intros H. pose proof (nick_ok_trailing n H) as Ht. apply nick_ok_parts in H as [_ Hm].
+  unfold wf_msg, welcome_msg, smsg. cbn [mtags msrc verb middles trailing tags_ok src_ok map].
+  unfold middles_ok. cbn [length Nat.leb forallb snd]. rewrite Hm.
+  unfold trailing_ok. rewrite !forallb_app, Ht.
+  reflexivity.
+Qed.
+
+Lemma wf_nick_msg old neu : nick_ok old = true -> nick_ok neu = true -> wf_msg (nick_msg old neu) = true.
+Proof.
+  intros H1 H2. apply nick_ok_parts in H1 as [H1 _]. apply nick_ok_parts in H2 as [_ H2].
+  unfold wf_msg, nick_msg. cbn. now rewrite H1, H2.
+Qed.
+
+Lemma exp_coll cur x :
+  l_cmd (expected (coll_msg cur x)) = c_433 /\ l_args (expected (coll_msg cur x)) = [cur; x; s_inuse].
+Proof. split; reflexivity. Qed.
+Lemma exp_ignore cur x : l_cmd (expected (ignore_msg cur x)) = c_432.
+Proof. reflexivity. Qed.
+Lemma exp_welcome n :
+  l_cmd (expected (welcome_msg n)) = c_001 /\ target (expected (welcome_msg n)) = Ok n.
+Proof. split; reflexivity. Qed.
+Lemma exp_nick old neu :
+  l_cmd (expected (nick_msg old neu)) = c_NICK /\ l_nick (expected (nick_msg old neu)) = old
+  /\ l_args (expected (nick_msg old neu)) = [neu].
+Proof. repeat split; reflexivity. Qed.
+
+(* ================= the invariant of conformant runs ================= *)
+Lemma in_use_spec srv n : in_use srv n = true <-> In n (sv_others srv).
+Proof.
+  unfold in_use. rewrite existsb_exists. split.
+  - intros (x & Hx & E). apply beq_eq in E. now subst.
+  - intros H. exists n. split; [exact H|apply beq_refl].
+Qed.
+Lemma in_use_false srv n : in_use srv n = false <-> ~ In n (sv_others srv).
+Proof. rewrite <- in_use_spec. destruct (in_use srv n); split; congruence. Qed.
+
+Record Inv (w : world) : Prop := {
+  inv_nn : nn (w_cli w);
+  inv_sub : incl (others_of (w_cli w)) (sv_others (w_srv w));
+  inv_oth : Forall (fun o => nick_ok o = true) (sv_others (w_srv w));
+  inv_reg : sv_reg (w_srv w) = true ->
+            me_nick_of (w_cli w) = Some (sv_nick (w_srv w))
+            /\ ~ In (sv_nick (w_srv w)) (sv_others (w_srv w))
+            /\ nick_ok (sv_nick (w_srv w)) = true
+}.
+
+Lemma srv_post_fields srv outs :
+  sv_reg (srv_post srv outs) = sv_reg srv /\ sv_nick (srv_post srv outs) = sv_nick srv
+  /\ sv_others (srv_post srv outs) = sv_others srv.
+Proof. repeat split. Qed.
+
+Lemma set_pending_id srv : set_pending srv (sv_pending srv) = srv.
+Proof. destruct srv; reflexivity. Qed.
+
+Lemma srv_post_nil srv : srv_post srv [] = srv.
+Proof. unfold srv_post. cbn [nick_requests flat_map]. rewrite app_nil_r. apply set_pending_id. Qed.
+
+Section World.
+  Variable new_nick : bytes -> bytes.
+  Notation handle := (handle new_nick).
+  Notation client_step := (client_step new_nick).
+  Notation feed := (feed new_nick).
+  Notation wstep := (wstep new_nick).
+  Notation wrun := (wrun new_nick).
+  Notation observe := (observe new_nick).
+
+  Lemma feed_one s i : feed s [i] = (ho_st (client_step s i), ho_out (client_step s i)).
+  Proof. unfold NickHandlers.feed. cbn [feed_with]. now rewrite app_nil_r. Qed.
+
+  Lemma feed_nil s : feed s [] = (s, []).
+  Proof. reflexivity. Qed.
+
+  Lemma step_line s m : wf_msg m = true ->
+    client_step s (InLine (wire m)) = handle s (expected m).
+  Proof.
+    intros H. unfold NickHandlers.client_step, client_step_with. now rewrite (recv_roundtrip m H).
+  Qed.
+
+  Lemma cur_or_star_ok w : Inv w -> middle_ok (cur_or_star (w_srv w)) = true.
+  Proof.
+    intros I. unfold cur_or_star. destruct (sv_reg (w_srv w)) eqn:E; [|reflexivity].
+    destruct (inv_reg w I E) as (_ & _ & H). now apply nick_ok_parts in H.
+  Qed.
+
+  (* what one enabled event does to the client, as far as the invariant is concerned *)
+  Lemma wstep_unfold w e :
+    wstep w e =
+    let '(en, srv1, ins) := srv_pre (w_srv w) e in
+    let '(cli1, outs) := feed (w_cli w) ins in
+    ({| w_cli := cli1; w_srv := srv_post srv1 outs; w_ok := w_ok w && en |}, outs).
+  Proof. reflexivity. Qed.
+
+  Lemma srv_pre_enabled srv e : enabled srv e = true ->
+    srv_pre srv e = (true, fst (match e with ERaw _ => (srv, []) | _ => srv_act srv e end), snd (srv_act srv e)).
+  Proof. intros H. unfold srv_pre. rewrite H. destruct e; reflexivity. Qed.
+
+  Lemma incl_rename a b l1 l2 : incl l1 l2 -> incl (map (rename a b) l1) (map (rename a b) l2).
+  Proof. intros H x Hx. apply in_map_iff in Hx as (y & <- & Hy). apply in_map, H, Hy. Qed.
+
+  Lemma Forall_rename a b l : nick_ok b = true -> Forall (fun o => nick_ok o = true) l ->
+    Forall (fun o => nick_ok o = true) (map (rename a b) l).
+  Proof.
+    intros Hb H. apply Forall_forall. intros x Hx. apply in_map_iff in Hx as (y & <- & Hy).
+    unfold rename. destruct (beq y a); [exact Hb|]. rewrite Forall_forall in H. now apply H.
+  Qed.
+
+  Lemma in_rename_inv a b x l : In x (map (rename a b) l) -> x = b \/ In x l.
+  Proof.
+    intros H. apply in_map_iff in H as (y & <- & Hy). unfold rename. destruct (beq y a); [now left|now right].
+  Qed.
+
+  Theorem step_inv w e : Inv w -> enabled (w_srv w) e = true -> Inv (fst (wstep w e)).
+  Proof.
+    intros I En. rewrite wstep_unfold, (srv_pre_enabled _ _ En).
+    destruct I as [Inn Isub Ioth Ireg]. pose proof (Build_Inv w Inn Isub Ioth Ireg) as I.
+    destruct e as [|on|y| | |y|a b|a|a|a| |l]; cbn [enabled] in En; cbn [srv_act fst snd].
+    - (* EColl *)
+      destruct (sv_pending (w_srv w)) as [|x rest] eqn:Ep; [discriminate|].
+      apply andb_true_iff in En as [Hx Hne]. cbn [fst snd].
+      pose proof (nick_ok_parts x Hx) as [_ Hxm].
+      rewrite feed_one, step_line by (apply wf_coll; [apply cur_or_star_ok, I|exact Hxm]).
+      destruct (exp_coll (cur_or_star (w_srv w)) x) as [Ec Ea].
+      unfold NickHandlers.handle, handle_with. rewrite Ec. change (beq c_433 c_001) with false. change (beq c_433 c_433) with true. cbv iota.
+      destruct (h_433_spec new_nick (w_cli w) _ _ _ _ Inn Ea) as (_ & _ & Hn' & Ho' & _ & Hm').
+      cbn [fst w_cli w_srv]. constructor; cbn [w_cli w_srv].
+      + exact Hn'.
+      + rewrite Ho'. exact Isub.
+      + exact Ioth.
+      + cbn [srv_post set_pending sv_reg sv_nick sv_others]. intros Hr. destruct (Ireg Hr) as (Hm & Hno & Hok).
+        split; [|split; assumption]. rewrite Hm'. rewrite Hr in Hne. cbn [andb] in Hne.
+        apply negb_true_iff in Hne. rewrite Hm. cbn [opt_beq']. rewrite beq_sym, Hne. reflexivity.
+    - (* EWelcome *)
+      set (n := match on with Some n => n | None => hd [] (sv_pending (w_srv w)) end).
+      assert (Hn : sv_reg (w_srv w) = false /\ nick_ok n = true /\ in_use (w_srv w) n = false).
+      { subst n. destruct on as [n|].
+        - apply andb_true_iff in En as [En H3]. apply andb_true_iff in En as [H1 H2].
+          apply negb_true_iff in H1, H3. auto.
+        - apply andb_true_iff in En as [H1 En]. apply negb_true_iff in H1.
+          destruct (sv_pending (w_srv w)) as [|x rest]; [discriminate|].
+          apply andb_true_iff in En as [H2 H3]. apply negb_true_iff in H3. cbn [hd]. auto. }
+      destruct Hn as (Hr & Hok & Hu). apply in_use_false in Hu.
+      rewrite feed_one, step_line by (apply wf_welcome, Hok).
+      destruct (exp_welcome n) as [Ec Et].
+      unfold NickHandlers.handle, handle_with. rewrite Ec. change (beq c_001 c_001) with true. cbv iota.
+      destruct (h_001_spec new_nick (w_cli w) _ n Inn Et) as (_ & _ & Hn' & Ho' & _ & Hm').
+      { intros Hin. apply Hu, Isub, Hin. }
+      cbn [fst w_cli w_srv]. constructor; cbn [w_cli w_srv srv_post set_pending set_current sv_reg sv_nick sv_others].
+      + exact Hn'.
+      + rewrite Ho'. exact Isub.
+      + exact Ioth.
+      + intros _. auto.
+    - (* EReq *)
+      rewrite feed_one. cbn [NickHandlers.client_step client_step_with ho_st done ho_out fst w_cli w_srv].
+      constructor; cbn [w_cli w_srv srv_post set_pending sv_reg sv_nick sv_others]; assumption.
+    - (* EConfirm *)
+      apply andb_true_iff in En as [Hr En].
+      destruct (sv_pending (w_srv w)) as [|x rest] eqn:Ep; [discriminate|].
+      apply andb_true_iff in En as [En Hne]. apply andb_true_iff in En as [Hx Hu].
+      apply negb_true_iff in Hne, Hu. apply in_use_false in Hu. apply beq_neq in Hne.
+      destruct (Ireg Hr) as (Hm & Hno & Hok). cbn [fst snd].
+      rewrite feed_one, step_line by (apply wf_nick_msg; assumption).
+      destruct (exp_nick (sv_nick (w_srv w)) x) as (Ec & Ek & Ea).
+      destruct (nick_self_spec new_nick (w_cli w) _ _ x Inn Ec Ek Ea Hm Hne) as (_ & Hn' & Ho' & _ & Hm').
+      { intros Hin. apply Hu, Isub, Hin. }
+      cbn [fst w_cli w_srv]. constructor; cbn [w_cli w_srv srv_post set_pending set_current sv_reg sv_nick sv_others].
+      + exact Hn'.
+      + rewrite Ho'. exact Isub.
+      + exact Ioth.
+      + intros _. auto.
+    - (* EIgnore *)
+      destruct (sv_pending (w_srv w)) as [|x rest] eqn:Ep; [discriminate|]. cbn [fst snd].
+      rewrite feed_one, step_line.
+      2:{ apply wf_ignore; [apply cur_or_star_ok, I|]. destruct (nick_ok x) eqn:E; [now apply nick_ok_parts in E|reflexivity]. }
+      rewrite handle_noise by reflexivity.
+      cbn [ho_st done ho_out fst w_cli w_srv]. constructor; cbn [w_cli w_srv srv_post set_pending sv_reg sv_nick sv_others]; assumption.
+    - (* EForce *)
+      apply andb_true_iff in En as [En Hne]. apply andb_true_iff in En as [En Hu]. apply andb_true_iff in En as [Hr Hy].
+      apply negb_true_iff in Hne, Hu. apply in_use_false in Hu. apply beq_neq in Hne.
+      destruct (Ireg Hr) as (Hm & Hno & Hok).
+      rewrite feed_one, step_line by (apply wf_nick_msg; assumption).
+      destruct (exp_nick (sv_nick (w_srv w)) y) as (Ec & Ek & Ea).
+      destruct (nick_self_spec new_nick (w_cli w) _ _ y Inn Ec Ek Ea Hm Hne) as (_ & Hn' & Ho' & _ & Hm').
+      { intros Hin. apply Hu, Isub, Hin. }
+      cbn [fst w_cli w_srv]. constructor; cbn [w_cli w_srv srv_post set_pending set_current sv_reg sv_nick sv_others].
+      + exact Hn'.
+      + rewrite Ho'. exact Isub.
+      + exact Ioth.
+      + intros _. auto.
+    - (* EOther *)
+      apply andb_true_iff in En as [En Hne]. apply andb_true_iff in En as [En Hu]. apply andb_true_iff in En as [En Hb].
+      apply andb_true_iff in En as [En Ha]. apply andb_true_iff in En as [Hr Hau].
+      apply negb_true_iff in Hne, Hu. apply in_use_false in Hu. apply beq_neq in Hne. apply in_use_spec in Hau.
+      destruct (Ireg Hr) as (Hm & Hno & Hok).
+      assert (Hac : a <> sv_nick (w_srv w)) by (intros ->; contradiction).
+      rewrite feed_one, step_line by (apply wf_nick_msg; assumption).
+      destruct (exp_nick a b) as (Ec & Ek & Ea).
+      destruct (nick_other_spec new_nick (w_cli w) _ _ a b Inn Ec Ek Ea Hm Hac Hne) as (_ & Hn' & Ho' & _ & Hm').
+      { intros Hin. apply Hu, Isub, Hin. }
+      cbn [fst w_cli w_srv]. constructor; cbn [w_cli w_srv srv_post set_pending set_others sv_reg sv_nick sv_others].
+      + exact Hn'.
+      + rewrite Ho'. change (fun o => if beq o a then b else o) with (rename a b). apply incl_rename, Isub.
+      + change (fun o => if beq o a then b else o) with (rename a b). apply Forall_rename; assumption.
+      + intros _. split; [exact Hm'|]. split; [|exact Hok].
+        change (fun o => if beq o a then b else o) with (rename a b).
+        intros Hin. apply in_rename_inv in Hin as [Hin|Hin]; [congruence|contradiction].
+    - (* ENew *)
+      apply andb_true_iff in En as [En Hne]. apply andb_true_iff in En as [Ha Hu].
+      rewrite feed_nil. cbn [fst w_cli w_srv]. constructor; cbn [w_cli w_srv srv_post set_pending set_others sv_reg sv_nick sv_others].
+      + exact Inn.
+      + apply incl_appl, Isub.
+      + apply Forall_app. split; [exact Ioth|]. constructor; [exact Ha|constructor].
+      + intros Hr. destruct (Ireg Hr) as (Hm & Hno & Hok). split; [exact Hm|]. split; [|exact Hok].
+        rewrite Hr in Hne. cbn [andb] in Hne. apply negb_true_iff, beq_neq in Hne.
+        intros Hin. apply in_app_iff in Hin as [Hin|[Hin|[]]]; [contradiction|congruence].
+    - (* ETrack *)
+      apply in_use_spec in En. rewrite feed_one.
+      unfold NickHandlers.client_step, client_step_with.
+      destruct (c_st (w_cli w)) as [t|] eqn:Est.
+      + destruct (tk_NewNick_facts t a) as [Hme Hinc].
+        cbn [ho_st done ho_out fst w_cli w_srv]. constructor; cbn [w_cli w_srv srv_post set_pending sv_reg sv_nick sv_others].
+        * exact Inn.
+        * unfold others_of in *. rewrite Est in Isub. cbn [c_st]. intros x Hx. apply Hinc in Hx as [<-|Hx]; [exact En|apply Isub, Hx].
+        * exact Ioth.
+        * intros Hr. destruct (Ireg Hr) as (Hm & Hno & Hok). split; [|split; assumption].
+          unfold me_nick_of, do_Me in *. rewrite Est in Hm. cbn [c_st snd tk_Me option_map] in *. now rewrite Hme.
+      + cbn [ho_st done ho_out fst w_cli w_srv]. constructor; cbn [w_cli w_srv srv_post set_pending sv_reg sv_nick sv_others]; assumption.
+    - (* EForget *)
+      rewrite feed_one. unfold NickHandlers.client_step, client_step_with.
+      destruct (c_st (w_cli w)) as [t|] eqn:Est.
+      + destruct (tk_DelNick_facts t a) as [Hme Hinc].
+        cbn [ho_st done ho_out fst w_cli w_srv]. constructor; cbn [w_cli w_srv srv_post set_pending sv_reg sv_nick sv_others].
+        * exact Inn.
+        * unfold others_of in *. rewrite Est in Isub. cbn [c_st]. intros x Hx. apply Isub, Hinc, Hx.
+        * exact Ioth.
+        * intros Hr. destruct (Ireg Hr) as (Hm & Hno & Hok). split; [|split; assumption].
+          unfold me_nick_of, do_Me in *. rewrite Est in Hm. cbn [c_st snd tk_Me option_map] in *. now rewrite Hme.
+      + cbn [ho_st done ho_out fst w_cli w_srv]. constructor; cbn [w_cli w_srv srv_post set_pending sv_reg sv_nick sv_others]; assumption.
+    - (* EMe *)
+      rewrite feed_one. cbn [NickHandlers.client_step client_step_with ho_st done ho_out fst w_cli w_srv].
+      constructor; cbn [w_cli w_srv srv_post set_pending sv_reg sv_nick sv_others].
+      + apply do_Me_nn, Inn.
+      + unfold others_of. rewrite do_Me_st. exact Isub.
+      + exact Ioth.
+      + intros Hr. rewrite me_nick_of_do_Me. exact (Ireg Hr).
+    - (* ERaw: noise *)
+      rewrite feed_one. unfold NickHandlers.client_step, client_step_with. unfold is_noise in En.
+      destruct (recv_one (l ++ s_crlf)) as [[ln|]|].
+      + apply negb_true_iff in En. rewrite (handle_noise new_nick _ _ En).
+        cbn [ho_st done ho_out fst w_cli w_srv]. constructor; cbn [w_cli w_srv srv_post set_pending sv_reg sv_nick sv_others]; assumption.
+      + cbn [ho_st done ho_out fst w_cli w_srv]. constructor; cbn [w_cli w_srv srv_post set_pending sv_reg sv_nick sv_others]; assumption.
+      + cbn [ho_st done ho_out fst w_cli w_srv]. constructor; cbn [w_cli w_srv srv_post set_pending sv_reg sv_nick sv_others]; assumption.
+  Qed.
+End World.
+
+(* ================= runs ================= *)
+Section Runs.
+  Variable new_nick : bytes -> bytes.
+  Notation handle := (handle new_nick).
+  Notation client_step := (client_step new_nick).
+  Notation feed := (feed new_nick).
+  Notation wstep := (wstep new_nick).
+  Notation wrun := (wrun new_nick).
+  Notation observe := (observe new_nick).
+  Notation conformant := (conformant new_nick).
+
+  Lemma wstep_ok w e : w_ok (fst (wstep w e)) = w_ok w && enabled (w_srv w) e.
+  Proof.
+    rewrite wstep_unfold. unfold srv_pre.
+    destruct e; try (destruct (enabled (w_srv w) _) eqn:E; cbn [fst snd];
+      destruct (feed _ _); reflexivity).
+  Qed.
+
+  Lemma wrun_ok_mono es : forall w, w_ok (wrun w es) = true -> w_ok w = true.
+  Proof.
+    induction es as [|e es IH]; intros w H; [exact H|].
+    cbn [NickHandlers.wrun wrun_with] in H. fold (wstep w e) in H. apply IH in H. rewrite wstep_ok in H.
+    now apply andb_true_iff in H.
+  Qed.
+
+  Lemma wrun_inv es : forall w, Inv w -> w_ok (wrun w es) = true -> Inv (wrun w es).
+  Proof.
+    induction es as [|e es IH]; intros w I H; [exact I|].
+    cbn [NickHandlers.wrun wrun_with] in *. fold (wstep w e) in *. apply IH; [|exact H].
+    apply wrun_ok_mono in H. rewrite wstep_ok in H. apply andb_true_iff in H as [_ H].
+    now apply step_inv.
+  Qed.
+
+  Lemma client0_others track nick ident name : others_of (client0 track nick ident name) = [].
+  Proof.
+    unfold client0. destruct track; [|reflexivity].
+    unfold enable_tracking, client_init. cbn [c_st cfg_me].
+    unfold others_of. cbn [ho_st done c_st]. unfold tk_NickInfo, tk_new. cbn [tr_me bare_nick nk_nick].
+    rewrite beq_refl. reflexivity.
+  Qed.
+
+  Lemma world0_inv track nick ident name others0 :
+    w_ok (world0 track nick ident name others0) = true -> Inv (world0 track nick ident name others0).
+  Proof.
+    cbn [world0 w_ok]. intros H. constructor; cbn [world0 w_cli w_srv server0 sv_reg sv_others].
+    - apply client0_nn.
+    - rewrite client0_others. apply incl_nil_l.
+    - apply Forall_forall. intros x Hx. exact (forallb_In _ _ _ H Hx).
+    - discriminate.
+  Qed.
+
+  (* C17_me_tracks_server: after ANY conformant script (any length, any events in any enabled
+     order, Me() called anywhere or nowhere), once the welcome has been sent Me() reports the
+     nick the server uses for the client — tracking on or off, ANY generator *)
+  Theorem me_tracks_server track nick ident name others0 es :
+    let w0 := world0 track nick ident name others0 in
+    conformant w0 es = true ->
+    sv_reg (w_srv (wrun w0 es)) = true ->
+    me_nick_of (w_cli (wrun w0 es)) = Some (sv_nick (w_srv (wrun w0 es))).
+  Proof.
+    cbv zeta. unfold NickHandlers.conformant. intros Hc Hr.
+    pose proof (wrun_ok_mono es _ Hc) as H0.
+    pose proof (wrun_inv es _ (world0_inv track nick ident name others0 H0) Hc) as I.
+    exact (proj1 (inv_reg _ I Hr)).
+  Qed.
+
+  (* ---------- the server alone: the nick it uses is always a sendable one ---------- *)
+  Definition SrvInv (srv : server) : Prop := sv_reg srv = true -> nick_ok (sv_nick srv) = true.
+
+  Lemma srv_pre_inv srv e : SrvInv srv -> SrvInv (snd (fst (srv_pre srv e))).
+  Proof.
+    intros I. unfold srv_pre. destruct (enabled srv e) eqn:En.
+    2:{ destruct e; exact I. }
+    destruct e as [|on|y| | |y|a b|a|a|a| |l]; cbn [enabled] in En; cbn [srv_act fst snd]; try exact I.
+    - destruct (sv_pending srv); exact I.
+    - intros _. cbn [set_pending set_current sv_nick]. destruct on as [n|].
+      + apply andb_true_iff in En as [En _]. now apply andb_true_iff in En as [_ En].
+      + apply andb_true_iff in En as [_ En]. destruct (sv_pending srv) as [|x rest]; [discriminate|].
+        now apply andb_true_iff in En as [En _].
+    - apply andb_true_iff in En as [_ En]. destruct (sv_pending srv) as [|x rest]; [discriminate|].
+      intros _. cbn [fst set_pending set_current sv_nick].
+      apply andb_true_iff in En as [En _]. now apply andb_true_iff in En as [En _].
+    - destruct (sv_pending srv); exact I.
+    - intros _. cbn [set_current sv_nick]. apply andb_true_iff in En as [En _]. apply andb_true_iff in En as [En _].
+      now apply andb_true_iff in En as [_ En].
+  Qed.
+
+  Lemma wstep_srv w e : w_srv (fst (wstep w e)) = srv_post (snd (fst (srv_pre (w_srv w) e))) (snd (wstep w e)).
+  Proof.
+    rewrite wstep_unfold. destruct (srv_pre (w_srv w) e) as [[en srv1] ins]. destruct (feed (w_cli w) ins). reflexivity.
+  Qed.
+
+  Lemma wstep_nn w e : nn (w_cli w) -> nn (w_cli (fst (wstep w e))).
+  Proof.
+    intros H. rewrite wstep_unfold. destruct (srv_pre (w_srv w) e) as [[en srv1] ins].
+    assert (G : forall is s, nn s -> nn (fst (feed s is))).
+    { induction is as [|i is IH]; intros s Hs; [exact Hs|].
+      unfold NickHandlers.feed in *. cbn [feed_with].
+      specialize (IH (ho_st (client_step_with handle s i)) (client_step_nn new_nick s i Hs)).
+      destruct (feed_with handle (ho_st (client_step_with handle s i)) is). exact IH. }
+    specialize (G ins (w_cli w) H). destruct (feed (w_cli w) ins). exact G.
+  Qed.
+
+  (* C17_collision_answer, in a run: whatever the state *)
+  Lemma refused_433 w e r : nn (w_cli w) -> SrvInv (w_srv w) -> refused_of (w_srv w) e = Some r ->
+    filter is_nick_line (snd (wstep w e)) = nick_lines (new_nick r)
+    /\ (me_nick_of (w_cli (fst (wstep w e))) = me_nick_of (w_cli w)
+        \/ (me_nick_of (w_cli w) = Some r /\ me_nick_of (w_cli (fst (wstep w e))) = Some (new_nick r))).
+  Proof.
+    intros Hn Hs Hr. rewrite wstep_unfold.
+    assert (Hspec : forall l a0 rest, l_cmd l = c_433 -> l_args l = a0 :: r :: rest ->
+              let o := handle (w_cli w) l in
+              filter is_nick_line (ho_out o) = nick_lines (new_nick r)
+              /\ (me_nick_of (ho_st o) = me_nick_of (w_cli w)
+                  \/ (me_nick_of (w_cli w) = Some r /\ me_nick_of (ho_st o) = Some (new_nick r)))).
+    { intros l a0 rest Hc Ha. cbv zeta. unfold NickHandlers.handle, handle_with. rewrite Hc.
+      change (beq c_433 c_001) with false. change (beq c_433 c_433) with true. cbv iota.
+      destruct (h_433_spec new_nick (w_cli w) l a0 r rest Hn Ha) as (_ & Ho & _ & _ & _ & Hm).
+      rewrite Ho, filter_nick_lines. split; [reflexivity|]. rewrite Hm.
+      destruct (opt_beq' (me_nick_of (w_cli w)) (Some r)) eqn:E; cbn [andb]; [|now left].
+      apply opt_beq'_eq in E.
+      destruct (match c_st (w_cli w) with Some t => negb (tk_tracked t (new_nick r)) | None => true end); [now right|now left]. }
+    destruct e; cbn [refused_of] in Hr; try discriminate.
+    - (* EColl *)
+      destruct (enabled (w_srv w) EColl) eqn:En; [|discriminate].
+      rewrite (srv_pre_enabled _ _ En). cbn [enabled] in En. cbn [srv_act].
+      destruct (sv_pending (w_srv w)) as [|x rest] eqn:Ep; [discriminate|]. injection Hr as ->.
+      apply andb_true_iff in En as [Hx _]. cbn [fst snd].
+      assert (Hc : middle_ok (cur_or_star (w_srv w)) = true).
+      { unfold cur_or_star. destruct (sv_reg (w_srv w)) eqn:E; [|reflexivity]. specialize (Hs E). now apply nick_ok_parts in Hs. }
+      rewrite feed_one, step_line by (apply wf_coll; [exact Hc|now apply nick_ok_parts in Hx]).
+      cbn [fst snd w_cli].
+      destruct (exp_coll (cur_or_star (w_srv w)) r) as [Ec Ea]. exact (Hspec _ _ _ Ec Ea).
+    - (* ERaw *)
+      unfold srv_pre. cbn [srv_act snd]. rewrite feed_one. cbn [fst snd w_cli].
+      unfold NickHandlers.client_step, client_step_with.
+      destruct (recv_one (l ++ s_crlf)) as [[ln|]|]; try discriminate.
+      destruct (beq (l_cmd ln) c_433) eqn:Ec; [|discriminate]. apply beq_eq in Ec.
+      destruct (l_args ln) as [|a0 [|r' rest]] eqn:Ea; try discriminate. injection Hr as ->.
+      exact (Hspec _ _ _ Ec Ea).
+  Qed.
+
+  Lemma walk_holds es : forall w, nn (w_cli w) -> SrvInv (w_srv w) -> (w_ok w = true -> Inv w) ->
+    C17_walk new_nick (w_srv w) (w_ok w) (me_nick_of (w_cli w)) es (observe w es) = true.
+  Proof.
+    induction es as [|e es IH]; intros w Hn Hs Hi; [reflexivity|].
+    cbn [NickHandlers.observe observe_with C17_walk].
+    destruct (wstep_with handle w e) as [w1 outs] eqn:Ew. fold (wstep w e) in Ew.
+    pose proof (wstep_srv w e) as Hsrv. pose proof (wstep_ok w e) as Hok.
+    pose proof (wstep_nn w e Hn) as Hn1. pose proof (srv_pre_inv (w_srv w) e Hs) as Hs1.
+    pose proof (refused_433 w e) as Hcoll.
+    rewrite Ew in Hsrv, Hok, Hn1, Hcoll. cbn [fst snd] in Hsrv, Hok, Hn1, Hcoll.
+    assert (Hen : fst (fst (srv_pre (w_srv w) e)) = enabled (w_srv w) e).
+    { unfold srv_pre. destruct e; try (destruct (enabled (w_srv w) _); reflexivity). }
+    destruct (srv_pre (w_srv w) e) as [[en srv1] ins]. cbn [fst snd] in *. subst en.
+    cbn [o_nicks o_cfg o_me].
+    assert (Esrv : srv_post srv1 (filter is_nick_line outs) = w_srv w1).
+    { rewrite Hsrv. unfold srv_post. now rewrite nick_requests_filter. }
+    rewrite Esrv, <- Hok.
+    assert (Hi1 : w_ok w1 = true -> Inv w1).
+    { intros H1. rewrite Hok in H1. apply andb_true_iff in H1 as [H0 He].
+      pose proof (step_inv new_nick w e (Hi H0) He) as I. fold (wstep w e) in I. now rewrite Ew in I. }
+    assert (Hs1' : SrvInv (w_srv w1)).
+    { rewrite Hsrv. intros H. apply Hs1. exact H. }
+    (* never nil *)
+    pose proof (do_Me_nn _ Hn1) as [_ Hme]. unfold nn in Hn1.
+    unfold cfg_nick_of.
+    destruct (cfg_me (w_cli w1)) as [c|] eqn:Ec; [|contradiction].
+    assert (Em : exists m, me_nick_of (w_cli w1) = Some m).
+    { unfold me_nick_of. destruct (snd (do_Me (w_cli w1))); [cbn; eauto|contradiction]. }
+    destruct Em as (m & Em). rewrite !Em. cbn [option_map andb].
+    (* tracks the server *)
+    assert (Ht : (if w_ok w1 && sv_reg (w_srv w1) then opt_beq' (Some m) (Some (sv_nick (w_srv w1))) else true) = true).
+    { destruct (w_ok w1 && sv_reg (w_srv w1)) eqn:E; [|reflexivity]. apply andb_true_iff in E as [E1 E2].
+      destruct (inv_reg _ (Hi1 E1) E2) as (H & _). rewrite Em in H.
+      rewrite H. apply opt_beq'_refl. }
+    rewrite Ht. cbn [andb].
+    (* collision answer *)
+    assert (Hc : match refused_of (w_srv w) e with
+                 | Some r => list_beq (filter is_nick_line outs) (nick_lines (new_nick r))
+                             && (opt_beq' (Some m) (me_nick_of (w_cli w))
+                                 || (opt_beq' (me_nick_of (w_cli w)) (Some r) && opt_beq' (Some m) (Some (new_nick r))))
+                 | None => true
+                 end = true).
+    { destruct (refused_of (w_srv w) e) as [r|] eqn:Er; [|reflexivity].
+      destruct (Hcoll r Hn Hs eq_refl) as [H1 H2]. rewrite H1, list_beq_refl. cbn [andb].
+      rewrite Em in H2.
+      destruct H2 as [H2|[H2 H3]].
+      - rewrite H2, opt_beq'_refl. reflexivity.
+      - rewrite H2, H3, !opt_beq'_refl. apply orb_true_r. }
+    rewrite Hc. cbn [andb].
+    (* the marker's Me() and the rest *)
+    specialize (IH (fst (wstep_with handle w1 EMe))).
+    fold (wstep w1 EMe) in *.
+    rewrite wstep_srv in IH. rewrite wstep_ok in IH. cbn [enabled] in IH. rewrite andb_true_r in IH.
+    assert (E1 : srv_pre (w_srv w1) EMe = (true, w_srv w1, [InMe])) by reflexivity.
+    assert (E2 : wstep w1 EMe = ({| w_cli := fst (do_Me (w_cli w1)); w_srv := srv_post (w_srv w1) []; w_ok := w_ok w1 && true |}, [])).
+    { rewrite wstep_unfold, E1, feed_one. reflexivity. }
+    rewrite E1, E2 in IH. cbn [fst snd w_cli] in IH. rewrite srv_post_nil, me_nick_of_do_Me in IH.
+    rewrite Em in IH.
+    rewrite E2. cbn [fst]. rewrite srv_post_nil.
+    apply IH.
+    - apply do_Me_nn. unfold nn. rewrite Ec. discriminate.
+    - exact Hs1'.
+    - intros H1. specialize (Hi1 H1). destruct Hi1 as [A B C D].
+      constructor; cbn [w_cli w_srv].
+      + apply do_Me_nn, A.
+      + unfold others_of. rewrite do_Me_st. exact B.
+      + exact C.
+      + rewrite me_nick_of_do_Me. exact D.
+  Qed.
+
+  Theorem C17_holds track nick ident name others0 es :
+    let w0 := world0 track nick ident name others0 in
+    C17_ok new_nick w0 es (observe w0 es) = true.
+  Proof.
+    cbv zeta. unfold C17_ok. apply walk_holds.
+    - apply client0_nn.
+    - intros H. discriminate.
+    - apply world0_inv.
+  Qed.
+End Runs.
+
+(* ================= registration: any number of collisions ================= *)
+Lemma iter_succ_r {A} k (f : A -> A) x : Nat.iter (S k) f x = Nat.iter k f (f x).
+Proof. induction k as [|k IH]; [reflexivity|]. cbn [Nat.iter nat_rect] in *. now rewrite IH. Qed.
+
+Section Registration.
+  Variable new_nick : bytes -> bytes.
+  Notation wstep := (wstep new_nick).
+  Notation wrun := (wrun new_nick).
+
+  Definition first_nick (nick : bytes) : bytes := if beq nick [] then s_idiot else nick.
+
+  Record RegInv (w : world) (n : bytes) : Prop := {
+    ri_nn : nn (w_cli w);
+    ri_me : me_nick_of (w_cli w) = Some n;
+    ri_oth : others_of (w_cli w) = [];
+    ri_pend : sv_pending (w_srv w) = [n];
+    ri_reg : sv_reg (w_srv w) = false
+  }.
+
+  Lemma reg_step w n : RegInv w n -> nick_ok n = true -> nick_ok (new_nick n) = true ->
+    RegInv (fst (wstep w EColl)) (new_nick n)
+    /\ w_ok (fst (wstep w EColl)) = w_ok w
+    /\ snd (wstep w EColl) = nick_lines (new_nick n).
+  Proof.
+    intros [Hn Hm Ho Hp Hr] Hk Hk'.
+    assert (En : enabled (w_srv w) EColl = true).
+    { cbn [enabled]. now rewrite Hp, Hk, Hr. }
+    rewrite wstep_unfold, (srv_pre_enabled _ _ En). cbn [srv_act]. rewrite Hp. cbn [fst snd].
+    assert (Hc : cur_or_star (w_srv w) = s_star) by (unfold cur_or_star; now rewrite Hr).
+    rewrite Hc, feed_one, step_line by (apply wf_coll; [reflexivity|now apply nick_ok_parts in Hk]).
+    destruct (exp_coll s_star n) as [Ec Ea].
+    unfold handle, handle_with. rewrite Ec. change (beq c_433 c_001) with false. change (beq c_433 c_433) with true. cbv iota.
+    destruct (h_433_spec new_nick (w_cli w) _ _ _ _ Hn Ea) as (_ & Hout & Hn' & Ho' & _ & Hm').
+    cbn [fst snd w_cli w_srv w_ok]. split; [|split; [now rewrite andb_true_r|exact Hout]].
+    constructor; cbn [w_cli w_srv].
+    - exact Hn'.
+    - rewrite Hm', Hm, opt_beq'_refl. cbn [andb].
+      destruct (c_st (w_cli w)) as [t|] eqn:Est; [|reflexivity].
+      destruct (tk_tracked t (new_nick n)) eqn:Tr; [|reflexivity]. cbn [negb].
+      apply tk_tracked_spec in Tr. unfold others_of in Ho. rewrite Est in Ho. rewrite Ho in Tr.
+      destruct Tr as [Tr|[]]. unfold me_nick_of, do_Me in Hm. rewrite Est in Hm. cbn in Hm. congruence.
+    - rewrite Ho'. exact Ho.
+    - rewrite Hout. unfold srv_post. cbn [set_pending sv_pending app]. rewrite nick_requests_lines.
+      now rewrite cut_nl_id by (apply nick_ok_clean, Hk').
+    - cbn [srv_post set_pending sv_reg]. exact Hr.
+  Qed.
+
+  Lemma reg_run k : forall w n, RegInv w n ->
+    (forall j, (j <= k)%nat -> nick_ok (Nat.iter j new_nick n) = true) ->
+    RegInv (wrun w (repeat EColl k)) (Nat.iter k new_nick n) /\ w_ok (wrun w (repeat EColl k)) = w_ok w.
+  Proof.
+    induction k as [|k IH]; intros w n I Hk; [split; [exact I|reflexivity]|].
+    cbn [repeat NickHandlers.wrun wrun_with]. fold (wstep w EColl).
+    destruct (reg_step w n I (Hk 0%nat (Nat.le_0_l _)) (Hk 1%nat ltac:(lia))) as (I' & Hok & _).
+    destruct (IH _ _ I') as [I'' Hok''].
+    { intros j Hj. rewrite <- iter_succ_r. apply Hk. lia. }
+    rewrite <- iter_succ_r in I''. split; [exact I''|]. now rewrite Hok''.
+  Qed.
+
+  Lemma world0_reg track nick ident name others0 :
+    RegInv (world0 track nick ident name others0) (first_nick nick) \/ ~ clean (first_nick nick).
+  Proof.
+    destruct (Forall_dec (fun c => is_nl c = false) (fun c => bool_dec (is_nl c) false) (first_nick nick)) as [Hc|Hc]; [left|now right].
+    assert (Hme : forall tr, cfg_nick_of (client0 tr nick ident name) = Some (first_nick nick)
+                           /\ me_nick_of (client0 tr nick ident name) = Some (first_nick nick)).
+    { intros tr. unfold client0, client_init, first_nick.
+      assert (E : beq (if beq ident [] then s_goirc else ident) [] = false).
+      { destruct (beq ident []) eqn:E; [reflexivity|exact E]. }
+      rewrite E, orb_false_r.
+      destruct tr; destruct (beq nick []); unfold enable_tracking, cfg_nick_of, me_nick_of, do_Me;
+        cbn [c_st cfg_me ho_st done]; unfold tk_NickInfo, tk_new; cbn [tr_me bare_nick nk_nick];
+        rewrite ?beq_refl; split; reflexivity. }
+    constructor; cbn [world0 w_cli w_srv server0 sv_pending sv_reg].
+    - apply client0_nn.
+    - apply Hme.
+    - apply client0_others.
+    - destruct (Hme track) as [H _]. unfold cfg_nick_of in H.
+      destruct (cfg_me (client0 track nick ident name)) as [m|]; [|discriminate]. cbn in H. injection H as ->.
+      now rewrite nick_requests_lines, cut_nl_id.
+    - reflexivity.
+  Qed.
+
+  (* After k collisions during registration (433 for the nick last requested, k arbitrary) the
+     client's Me() is the k-th iterate of the generator on its first nick — exactly the nick
+     it requested last, which is the server's only pending request — for ANY generator whose
+     iterates are sendable nicks, tracking on or off. *)
+  Theorem registration_collisions track nick ident name others0 k :
+    let n0 := first_nick nick in
+    let w := wrun (world0 track nick ident name others0) (repeat EColl k) in
+    (forall j, (j <= k)%nat -> nick_ok (Nat.iter j new_nick n0) = true) ->
+    me_nick_of (w_cli w) = Some (Nat.iter k new_nick n0)
+    /\ sv_pending (w_srv w) = [Nat.iter k new_nick n0]
+    /\ sv_reg (w_srv w) = false
+    /\ w_ok w = forallb nick_ok others0.
+  Proof.
+    cbv zeta. intros Hk.
+    destruct (world0_reg track nick ident name others0) as [I|Hc].
+    2:{ exfalso. apply Hc, nick_ok_clean, (Hk 0%nat), Nat.le_0_l. }
+    destruct (reg_run k _ _ I Hk) as [[_ Hm _ Hp Hr] Hok]. repeat split; assumption.
+  Qed.
+End Registration.
+
+(* ================= C17_collision_answer at the handler ================= *)
+Theorem collision_answer new_nick s l a0 r rest :
+  cfg_me s <> None -> l_cmd l = c_433 -> l_args l = a0 :: r :: rest ->
+  let o := handle new_nick s l in
+  ho_panic o = false
+  /\ ho_out o = [s_NICK ++ s_sp ++ cut_newlines (new_nick r)]
+  /\ me_nick_of (ho_st o) =
+     (if opt_beq' (me_nick_of s) (Some r)
+         && match c_st s with Some t => negb (tk_tracked t (new_nick r)) | None => true end
+      then Some (new_nick r) else me_nick_of s).
+Proof.
+  intros Hn Hc Ha. cbv zeta. unfold handle, handle_with. rewrite Hc.
+  change (beq c_433 c_001) with false. change (beq c_433 c_433) with true. cbv iota.
+  destruct (h_433_spec new_nick s l a0 r rest Hn Ha) as (Hp & Ho & _ & _ & _ & Hm).
+  split; [exact Hp|]. split; [|exact Hm]. rewrite Ho, nick_lines_shape, cut_newlines_cut_nl. reflexivity.
+Qed.
+
+Theorem collision_short new_nick s l : l_cmd l = c_433 -> llen (l_args l) < 2 ->
+  handle new_nick s l = panic (fst (do_Me s)) [].
+Proof.
+  intros Hc H. unfold handle, handle_with. rewrite Hc.
+  change (beq c_433 c_001) with false. change (beq c_433 c_433) with true. cbv iota.
+  now apply h_433_short.
+Qed.
